@@ -9,7 +9,7 @@ CONSTANTS
   U64 = 1073741824
   EPOCH0 <- c_EPOCH0
   TICKID = "minute"
-  DEVS <- c_DEVS_ALL
+  DEVS <- c_DEVS_GEN
   PREFIXES <- c_PREFIX_GR
   EVENTS = {"RegisterAVS", "UpdateAVS", "DeregisterAVS", "OptIn", "OptOut", "RegisterBLS", "CreateTask", "Submit", "Challenge", "Tick"}
   A_AVS = {"a1", "a2"}
